@@ -16,9 +16,23 @@ pub fn validate_marshalled(
     raw: &[u8],
     sig: &signature::Type,
 ) -> ValidationResult {
+    validate_marshalled_at_depth(byteorder, offset, raw, sig, 0)
+}
+
+/// Like validate_marshalled, but for a value that is already nested inside of `depth` containers.
+/// Containers nested deeper than the protocol allows are rejected, this also bounds the recursion.
+pub(crate) fn validate_marshalled_at_depth(
+    byteorder: ByteOrder,
+    offset: usize,
+    raw: &[u8],
+    sig: &signature::Type,
+    depth: usize,
+) -> ValidationResult {
     match sig {
         signature::Type::Base(b) => validate_marshalled_base(byteorder, offset, raw, *b),
-        signature::Type::Container(c) => validate_marshalled_container(byteorder, offset, raw, c),
+        signature::Type::Container(c) => {
+            validate_marshalled_container_at_depth(byteorder, offset, raw, c, depth)
+        }
     }
 }
 
@@ -130,12 +144,28 @@ pub fn validate_marshalled_container(
     buf: &[u8],
     sig: &signature::Container,
 ) -> ValidationResult {
+    validate_marshalled_container_at_depth(byteorder, offset, buf, sig, 0)
+}
+
+fn validate_marshalled_container_at_depth(
+    byteorder: ByteOrder,
+    offset: usize,
+    buf: &[u8],
+    sig: &signature::Container,
+    depth: usize,
+) -> ValidationResult {
+    if depth >= crate::wire::MAX_NESTING_DEPTH {
+        return Err((offset, UnmarshalError::NestingTooDeep));
+    }
+    // the depth of everything inside of this container
+    let depth = depth + 1;
     match sig {
         signature::Container::Array(elem_sig) => {
             let padding = util::align_offset(4, buf, offset).map_err(|err| (offset, err))?;
             let offset = offset + padding;
             let bytes_in_array =
                 util::parse_u32(&buf[offset..], byteorder).map_err(|err| (offset, err))?;
+            util::check_array_len(bytes_in_array).map_err(|err| (offset, err))?;
             let offset = offset + 4;
 
             if buf[offset..].len() < bytes_in_array as usize {
@@ -161,11 +191,12 @@ pub fn validate_marshalled_container(
                 let mut bytes_used_counter = 0;
                 let array_end = offset + bytes_in_array as usize;
                 while bytes_used_counter < bytes_in_array as usize {
-                    let bytes_used = validate_marshalled(
+                    let bytes_used = validate_marshalled_at_depth(
                         byteorder,
                         offset + bytes_used_counter,
                         &buf[..array_end],
                         elem_sig,
+                        depth,
                     )?;
                     bytes_used_counter += bytes_used;
                 }
@@ -178,6 +209,7 @@ pub fn validate_marshalled_container(
             let offset = offset + padding;
             let bytes_in_dict =
                 util::parse_u32(&buf[offset..], byteorder).map_err(|err| (offset, err))?;
+            util::check_array_len(bytes_in_dict).map_err(|err| (offset, err))?;
             let offset = offset + 4;
 
             if buf[offset..].len() < bytes_in_dict as usize {
@@ -208,11 +240,12 @@ pub fn validate_marshalled_container(
                     *key_sig,
                 )?;
                 bytes_used_counter += key_bytes;
-                let val_bytes = validate_marshalled(
+                let val_bytes = validate_marshalled_at_depth(
                     byteorder,
                     offset + bytes_used_counter,
                     buf_for_dict,
                     val_sig,
+                    depth,
                 )?;
                 bytes_used_counter += val_bytes;
             }
@@ -224,8 +257,13 @@ pub fn validate_marshalled_container(
 
             let mut bytes_used_counter = 0;
             for field_sig in sigs.as_ref() {
-                let bytes_used =
-                    validate_marshalled(byteorder, offset + bytes_used_counter, buf, field_sig)?;
+                let bytes_used = validate_marshalled_at_depth(
+                    byteorder,
+                    offset + bytes_used_counter,
+                    buf,
+                    field_sig,
+                    depth,
+                )?;
                 bytes_used_counter += bytes_used;
             }
             Ok(padding + bytes_used_counter)
@@ -242,7 +280,8 @@ pub fn validate_marshalled_container(
             let sig = sig.remove(0);
             let offset = offset + sig_bytes_used;
 
-            let param_bytes_used = validate_marshalled(byteorder, offset, buf, &sig)?;
+            let param_bytes_used =
+                validate_marshalled_at_depth(byteorder, offset, buf, &sig, depth)?;
             Ok(sig_bytes_used + param_bytes_used)
         }
     }
